@@ -336,6 +336,25 @@ func runProperty(o *Options, pc *PropertyConfig) int {
 			}(i, j)
 		}
 		wg2.Wait()
+		// third chance, one at a time with a sixteen-fold limit, for queries whose obligation was discharged on
+		// the accepted baseline: a lost proof is reported as a violation, so a timeout on a loaded machine
+		// must be ruled out first
+		base3 := loadBaseline(o.Verif, o.Property)
+		for i, j := range again {
+			st := j.ob.Result.Status
+			if st == "unsat" || st == "sat" {
+				continue
+			}
+			nm := j.ob.Name
+			if base3.Obligations[nm] != "discharged" {
+				continue
+			}
+			r := solve(smtDir, fmt.Sprintf("last_%04d", i), j.ob.Query, nil, timeoutMs*16, false)
+			if r.Status == "unsat" || r.Status == "sat" {
+				r.Solver += "(third-chance)"
+				j.ob.Result = r
+			}
+		}
 	}
 
 	// aggregate by obligation name
